@@ -556,6 +556,16 @@ fn thread_op(k: usize, guards: &mut Vec<G>, w: &[&str]) -> Option<String> {
                 },
             }
         }
+        // a captured set goes out of scope
+        ["dropLocalSpans", x] => {
+            match LSPANS.lock().unwrap().get_or_insert_with(HashMap::new).remove(*x) {
+                Some(ls) => {
+                    drop(ls);
+                    "ok".into()
+                }
+                None => "ok".into(),
+            }
+        }
         // the caller gives its last handle of the captured set away (moved, not cloned)
         ["pushChildLast", v, x] => {
             let ls = LSPANS.lock().unwrap().get_or_insert_with(HashMap::new).remove(*x);
